@@ -261,6 +261,19 @@ def t_g5(ctx: Ctx, rule: str) -> None:
                {"rule": "unexplored_nodes = all nodes of the graph that are flat and not unrolled"},
                "" if ok else "unexplored_nodes is no longer the list of all flat, not yet unrolled nodes of the graph")
 
+    # ... and it is recomputed in every iteration before it is consulted (never a stale snapshot)
+    stale = None
+    n_use = 0
+    for view in views:
+        defs_at = [i for i, s_ in view.stmts(lambda s_: isinstance(s_, ast.Assign) and any(
+            isinstance(t, ast.Name) and t.id == "unexplored_nodes" for t in (s_.targets[0].elts if isinstance(s_.targets[0], ast.Tuple) else [s_.targets[0]])))]
+        for i, st in enumerate(view.steps):
+            if st.kind == "cond" and any(isinstance(n, ast.Name) and n.id == "unexplored_nodes" for n in ast.walk(st.node)):
+                n_use += 1
+                if not any(d < i for d in defs_at):
+                    stale = view
+    ctx.record(rule + "e", "ORDER", TOT, "unexplored_nodes is recomputed in every iteration before it is consulted", stale is None and n_use >= 2, {"uses": n_use},
+               "" if stale is None and n_use >= 2 else "the list of unexplored flat nodes can be a stale snapshot from an earlier iteration (cleanup postponed forever, or done too early)")
     # the reversal is preceded, on every path, by the unfiltered loop dropping X in all setup nodes
     n_sites = 0
     for view in views:
